@@ -203,7 +203,9 @@ func tBinaryInit(gg *ggraph, rt *rapid.T) bool {
 	wi := gg.addInit(w)
 	gg.weighted = true
 	ins := []string{v.name, wi.name}
-	if rapid.Bool().Draw(rt, "weightFirst") && len(wi.shape) <= len(v.shape) {
+	// a generated value is never used as divisor: it may be arbitrarily close to zero, which would
+	// amplify rounding-level differences without bound
+	if op != "Div" && rapid.Bool().Draw(rt, "weightFirst") && len(wi.shape) <= len(v.shape) {
 		ins = []string{wi.name, v.name}
 	}
 	gg.emit(op, ins, []gv{gg.out(cloneInts(v.shape), v.dt, v.batch)})
@@ -250,7 +252,44 @@ func tCompareLogic(gg *ggraph, rt *rapid.T) bool {
 	return true
 }
 
+// tGemmTransA: the transA forms, which contract over the rows of the data operand (so they are not
+// per-sample): Gemm(W^T-as-A, x) with the weight as first operand, or Gemm(x^T, W).
+func tGemmTransA(gg *ggraph, rt *rapid.T) bool {
+	if gg.opts.perSample {
+		return false
+	}
+	v, ok := gg.pick(rt, "gemmTA", func(v gv) bool { return isF32(v) && len(v.shape) == 2 && !v.init })
+	if !ok {
+		return false
+	}
+	r0, r1 := v.shape[0], v.shape[1]
+	var ins []string
+	var out []int
+	attrs := []*onnx.AttributeProto{attrI("transA", 1)}
+	if rapid.Bool().Draw(rt, "weightIsA") {
+		m := rapid.IntRange(1, 4).Draw(rt, "gemmM")
+		w := gg.addInit(f32Init(rt, []int{r0, m}, 1, "gemmWA")) // (K,M), transposed to (M,K)
+		ins, out = []string{w.name, v.name}, []int{m, r1}
+		gg.feat("gemm-transA-weight")
+	} else {
+		n := rapid.IntRange(1, 4).Draw(rt, "gemmN")
+		w := gg.addInit(f32Init(rt, []int{r0, n}, 1, "gemmWB"))
+		ins, out = []string{v.name, w.name}, []int{r1, n}
+	}
+	if rapid.Bool().Draw(rt, "gemmTAC") {
+		c := gg.addInit(f32Init(rt, []int{out[1]}, 1, "gemmC"))
+		ins = append(ins, c.name)
+		attrs = append(attrs, attrF("beta", float32(rapid.SampledFrom([]float64{0.5, -1, 2}).Draw(rt, "betaV"))))
+	}
+	gg.emit("Gemm", ins, []gv{gg.out(out, v.dt, -1)}, attrs...)
+	gg.mixing, gg.weighted = true, true
+	return true
+}
+
 func tGemm(gg *ggraph, rt *rapid.T) bool {
+	if rapid.IntRange(0, 3).Draw(rt, "gemmTransA") == 0 && tGemmTransA(gg, rt) {
+		return true
+	}
 	a, ok := gg.pick(rt, "gemmA", func(v gv) bool { return isF32(v) && len(v.shape) == 2 && v.batch <= 0 && !v.init })
 	if !ok {
 		return false
